@@ -35,9 +35,9 @@ META["C02"] = dict(
 META["C18"] = dict(
     level="other",
     technique="contract-based deductive verification of progress.py (class invariant 0<=_i<=_total, notification range) by VC generation from the real AST + z3; ghost step accounting of entry points; option cross product as labelled bounded stand-in",
-    level_text="Proved for all states: every Progress method preserves 0<=_i<=_total and the global _RECENT_PROGRESS invariant, increment/set raise only when the step passes the total, and every notification forwarded to callbacks has 0<=progress<=1 and a message keyword. Completion of every option combination is a total-correctness claim through numpy/scipy and is only explored (bounded) over the option cross product.",
+    level_text="Proved for all states: every Progress method preserves 0<=_i<=_total and the global _RECENT_PROGRESS invariant, increment/set raise only when the step passes the total, and every notification forwarded to callbacks has 0<=progress<=1 and a message keyword. Z-HIT step accounting: the real num_steps arithmetic of perform_zhit against the increments of its five real stage functions, executed with the real Progress class for every {smoothing, interpolation, window: auto|named} x {weights: None|array} combination and window-table sizes 1, 2, 14 (both sides affine in the table size), never exceeds the total. Completion of every option combination is a total-correctness claim through numpy/scipy and is only explored (bounded) over the option cross product.",
     level_note="real arithmetic for progress fractions; set_message modelled in the only form the library uses (message[, force]); run-to-completion of the numerical entry points is bounded, never proved",
-    explanation="Proof part: obligations from progress.py (_update_every_N_percent, Progress.{increment,set,set_message,__enter__,__exit__}, register). Bounded part: option cross product per entry point with a recording progress callback.",
+    explanation="Proof part: obligations from progress.py (_update_every_N_percent, Progress.{increment,set,set_message,__enter__,__exit__}, register) and the Z-HIT step-accounting target (48 option/table combinations). Bounded part: option cross product per entry point with a recording progress callback.",
     trusted_base=["callbacks are opaque; _update forwards its keyword arguments unchanged"],
     assumptions=COMMON_ASSUME,
     abstracted=["message strings", "print-based default handler"],
